@@ -428,3 +428,20 @@ def byte_match_paths(fn, pv):
                 out.append((bytes(acc), b))
         walk(bi, [])
     return out
+
+
+def result_checked(fn, call_block):
+    """The call's Result is not dropped: it is returned, unwrapped, or branched on with the
+    failure arm leading only to failure. (Unlike must_pass_call this does not require every
+    success path of fn to cross the call: used for calls inside loops / branches.)"""
+    info = result_ok_edge(fn, call_block)
+    if info is None:
+        return False
+    if info["kind"] in ("propagated", "unwrap"):
+        return True
+    for (a, b) in info["fail_edges"]:
+        if fn.blocks[b]["t"]["k"] == "unreachable":
+            continue
+        if not fail_only(fn, b):
+            return False
+    return True
